@@ -224,3 +224,86 @@ poll:
 	k.Count("anyway_cases_ok", 1)
 	k.Count("anyway_items", int64(nc))
 }
+
+// manyParkedCase: hundreds of consumers parked on one queue (256, 512, 1024 and their
+// neighbours: counts at which a narrow waiter counter wraps). Then either the queue is closed -
+// all of them return - or as many items are added - every one returns with an item of its
+// own - and the queue is closed.
+func manyParkedCase(k *engine.Case) {
+	r := k.R
+	qu := newQueue(r)
+	n := []int{255, 256, 256, 257, 512, 512, 1024, 768}[r.Intn(8)]
+	byClose := r.Intn(2) == 0
+	k.Logf("queue=%s: %d consumers parked, released by %s", qu.Name(), n, map[bool]string{true: "Close", false: "as many adds"}[byClose])
+	k.Nontrivial()
+	d := engine.NewDriver(Q, k)
+	ops := make([]*engine.Op, n)
+	for i := range ops {
+		anyway := i%2 == 0
+		ops[i] = d.Spawn("Pop", func() any { v, ok := qu.Pop(anyway); return popRes{v, ok} })
+	}
+	if !d.Quiesce() {
+		qu.Close()
+		return
+	}
+	for i, o := range ops {
+		if o.Done() {
+			k.Fail("pop-returned-on-empty", "%s: consumer %d of %d returned %+v from an empty open queue", qu.Name(), i, n, o.Result())
+			qu.Close()
+			return
+		}
+	}
+	if !byClose {
+		for i := 0; i < n; i++ {
+			if err := qu.Add(5000+i, false, false); err != nil {
+				k.Fail("add-refused", "%s: add #%d on the open unbounded queue was refused: %v", qu.Name(), i, err)
+				qu.Close()
+				return
+			}
+		}
+		if !d.Quiesce() {
+			qu.Close()
+			return
+		}
+		seen := map[int]bool{}
+		done := 0
+		for _, o := range ops {
+			if !o.Done() {
+				continue
+			}
+			done++
+			pr := o.Result().(popRes)
+			if !pr.ok || seen[pr.v] {
+				k.Fail("lost-wakeup", "%s: a consumer returned %+v (closed marker or an item handed out twice) after %d items were added for %d parked consumers", qu.Name(), pr, n, n)
+				qu.Close()
+				return
+			}
+			seen[pr.v] = true
+		}
+		k.Evals(1)
+		if done != n {
+			k.Fail("lost-wakeup", "%s: %d consumers were parked and %d items added; only %d consumers returned, the rest sleeps beside %d items: %v", qu.Name(), n, n, done, n-done, Q.Describe()[:min(3, len(Q.Describe()))])
+			qu.Close()
+			return
+		}
+		k.Count("many_parked_released_by_adds", 1)
+		qu.Close()
+		return
+	}
+	qu.Close()
+	if !d.Quiesce() {
+		return
+	}
+	k.Evals(1)
+	parked := 0
+	for _, o := range ops {
+		if !o.Done() {
+			parked++
+		}
+	}
+	if parked > 0 {
+		k.Fail("parked-after-close", "%s: %d consumers were parked when the queue was closed; %d of them are still parked", qu.Name(), n, parked)
+		return
+	}
+	k.Count("many_parked_released_by_close", 1)
+}
